@@ -7,6 +7,7 @@ import (
 	"crypto/x509"
 	"errors"
 	"fmt"
+	nodetls "github.com/hashicorp/nodeenrollment/tls"
 	"net"
 	"sort"
 	"strings"
@@ -222,10 +223,35 @@ func propC17(r *kernel.Run) {
 				opts = append(opts, nodeenrollment.WithState(bigStruct(r, []int{2000, 5000, 9000}[tp.Draw(3)])))
 				r.Count("cfg.large_client_state", 1)
 			}
-			res := w.DialHonest(fmt.Sprintf("auth%d", r.NextID()), nodeW, w.Addr, opts...)
+			var res *dialRes
+			placement := "behind the request (Dial)"
+			if len(extras) > 0 && tp.Draw(4) == 0 {
+				// an application that takes the client configuration from tls.ClientConfigs and lists its own protocols
+				// itself: in front of the request entries, or behind the certificate preference
+				creds, err := types.LoadNodeCredentials(contextBG, nodeW.Storage, nodeenrollment.CurrentId, nodeW.Opts()...)
+				if err != nil {
+					r.HarnessErr("node credentials: %v", err)
+				}
+				cfgs, err := nodetls.ClientConfigs(contextBG, creds, nodeenrollment.WithServerName("server"))
+				if err != nil || len(cfgs) == 0 {
+					r.Violate("routing", "no-client-config", "%v", err)
+				}
+				cfg := cfgs[0]
+				if tp.Draw(2) == 0 {
+					cfg.NextProtos = append(append([]string{}, extras...), cfg.NextProtos...)
+					placement = "in front of the request entries (own config)"
+				} else {
+					cfg.NextProtos = append(append([]string{}, cfg.NextProtos...), extras...)
+					placement = "behind the certificate preference (own config)"
+				}
+				res = w.rawClient(fmt.Sprintf("auth%d", r.NextID()), cfg)
+				r.Count("ops.authenticated_client_with_own_protocol_placement", 1)
+			} else {
+				res = w.DialHonest(fmt.Sprintf("auth%d", r.NextID()), nodeW, w.Addr, opts...)
+			}
 			w.Quiesce()
 			where, conns := newDeliveries()
-			desc := fmt.Sprintf("authenticated client extras=%q registered=%q -> delivered to %q", extras, names, where)
+			desc := fmt.Sprintf("authenticated client extras=%q %s registered=%q -> delivered to %q", extras, placement, names, where)
 			hist = append(hist, desc)
 			r.Count("ops.authenticated_client", 1)
 			if res.err != nil {
